@@ -22,6 +22,7 @@ import ClarabelProofs.Lemmas.LoopStep
 import ClarabelProofs.Lemmas.LoopSoc
 import ClarabelProofs.Props.C15
 import ClarabelProofs.Lemmas.SolverModelPrefix
+import ClarabelProofs.Props.C07NS
 import ClarabelProofs.Lemmas.SolverModelExample
 import ClarabelProofs.Lemmas.StepKInterior
 import ClarabelProofs.Lemmas.StepKInit
